@@ -1076,5 +1076,78 @@ func extractC07Guards(c *Ctx) error {
 	c.P("Definition processed_key_read : string := %s.", CoqStr(rk))
 	c.Info("processed_key_written", wk)
 	c.Info("processed_key_read", rk)
+
+	// fifth round: the compass upload's follow-up decides "first deployment on this chain" (current snapshot listed on the
+	// chain, contract active at once) vs "upgrade" (deployment waits, handover scheduled) by whether GetLatestSnapshotOnChain
+	// finds a snapshot.  That walk must look at EVERY stored snapshot: `for {` without header, leaving only by `found`, by a
+	// store error, or when the id is exhausted.
+	vf, err := c.Parse("x/valset/keeper/keeper.go")
+	if err != nil {
+		return err
+	}
+	walk := "?"
+	if gl := FindFunc(vf, "Keeper", "GetLatestSnapshotOnChain"); gl != nil {
+		var loops []*ast.ForStmt
+		nRange := 0
+		ast.Inspect(gl.Body, func(n ast.Node) bool {
+			switch v := n.(type) {
+			case *ast.ForStmt:
+				loops = append(loops, v)
+			case *ast.RangeStmt:
+				nRange++
+			}
+			return true
+		})
+		src := strings.Join(strings.Fields(c.Src(gl.Body)), " ")
+		switch {
+		case len(loops) != 1:
+			walk = fmt.Sprintf("?%d loops", len(loops))
+		case loops[0].Init != nil || loops[0].Cond != nil || loops[0].Post != nil:
+			hdr := ""
+			if loops[0].Init != nil {
+				hdr += c.Src(loops[0].Init)
+			}
+			hdr += "; "
+			if loops[0].Cond != nil {
+				hdr += c.Src(loops[0].Cond)
+			}
+			hdr += "; "
+			if loops[0].Post != nil {
+				hdr += c.Src(loops[0].Post)
+			}
+			walk = "?bounded walk: for " + hdr
+		case nRange != 1 || strings.Count(src, "break") != 1 || strings.Count(src, "return") != 3 || strings.Contains(src, "continue") || strings.Contains(src, "goto") ||
+			!strings.Contains(src, "snapshotId := k.ider.GetLastID(sdkCtx, snapshotIDKey)") ||
+			!strings.Contains(src, "snapshot, err := k.FindSnapshotByID(ctx, snapshotId) if err != nil { return nil, err }") ||
+			!strings.Contains(src, "for _, chain := range snapshot.Chains { if chain == chainReferenceID { return snapshot, nil } }") ||
+			!strings.Contains(src, "snapshotId = snapshot.GetId() - 1 if snapshotId == 0 { break }") ||
+			!strings.Contains(src, "return nil, keeperutil.ErrNotFound.Format("):
+			walk = "?unknown shape: " + src
+		default:
+			walk = "every stored snapshot, from the last id down to 1; found => that snapshot; none => ErrNotFound"
+		}
+	}
+	c.P("(* x/valset/keeper/keeper.go GetLatestSnapshotOnChain *)")
+	c.P("Definition latest_snapshot_on_chain_walk : string := %s.", CoqStr(walk))
+	c.Info("latest_snapshot_on_chain_walk", walk)
+	uf2, err := c.Parse("x/evm/keeper/attest_upload_smart_contract.go")
+	if err != nil {
+		return err
+	}
+	decision := "?"
+	if at := FindFunc(uf2, "uploadSmartContractAttester", "attest"); at != nil {
+		src := strings.Join(strings.Fields(c.Src(at.Body)), " ")
+		i1 := strings.Index(src, "_, err = a.k.Valset.GetLatestSnapshotOnChain(ctx, a.chainReferenceID) if err != nil { if !errors.Is(err, keeperutil.ErrNotFound) { return err }")
+		i2 := strings.Index(src, "err = a.k.Valset.SetSnapshotOnChain(ctx, snapshot.Id, a.chainReferenceID)")
+		i3 := strings.Index(src, "return a.k.SetSmartContractAsActive(ctx, smartContractID, a.chainReferenceID) }")
+		i4 := strings.Index(src, "return a.startCompassHandover(ctx, newCompassAddr)")
+		if i1 >= 0 && i1 < i2 && i2 < i3 && i3 < i4 && strings.Count(src, "GetLatestSnapshotOnChain") == 1 && strings.Count(src, "SetSmartContractAsActive") == 1 &&
+			strings.Count(src, "SetSnapshotOnChain") == 1 && strings.HasSuffix(src, "return a.startCompassHandover(ctx, newCompassAddr) }") {
+			decision = "ErrNotFound => current snapshot listed on the chain, contract active; found => handover scheduled"
+		} else {
+			decision = "?unknown shape"
+		}
+	}
+	c.P("Definition upload_first_deployment_decision : string := %s.", CoqStr(decision))
 	return nil
 }
